@@ -64,6 +64,13 @@ def edit_json(cj, ed):
                 return dict(d, **{ed["field"]: xs})
             return d
         return c01_cases.map_kind(cj, ed["kind"], fn)
+    if ed["op"] == "bump":
+        def fn(d):
+            if d.get("uuid") == ed["uuid"] and isinstance(d.get(ed["field"]), str):
+                v = d[ed["field"]]
+                return dict(d, **{ed["field"]: (v + "\u2032") if ed["field"] == "message" else aoef.num(float(v) + 1.0)})
+            return d
+        return c01_cases.map_kind(cj, ed["kind"], fn)
     raise ValueError(ed["op"])
 
 
@@ -89,6 +96,12 @@ def edit_live(obj, ty, ed):
                         del xs[i]
                     else:
                         setattr(o, ed["field"], [x for j, x in enumerate(xs) if j != i])
+        return obj
+    if ed["op"] == "bump":
+        for o in walk_models(obj):
+            if type(o).__name__ == ed["kind"] and str(getattr(o, "uuid", "")) == ed["uuid"]:
+                v = getattr(o, ed["field"])
+                setattr(o, ed["field"], (v + "\u2032") if ed["field"] == "message" else v + 1.0)
         return obj
     raise ValueError(ed["op"])
 
@@ -140,6 +153,7 @@ def run(inp):
     outs, prop = [], None
     pinned = {}          # file name -> (generic of the saved object, its dump, save_dir, type)  | None (not pinned)
     live = {}            # file name -> live object of the last in-process load
+    saved = {}           # file name -> live object last saved there (used again after a change: source "saved")
     try:
         for k, st in enumerate(inp["steps"]):
             name = st["path"]
@@ -171,8 +185,8 @@ def run(inp):
                 ty = cj["type"]
                 out = {}
                 try:
-                    if st.get("source") == "loaded":
-                        src = live.get(st.get("from", name))
+                    if st.get("source") in ("loaded", "saved"):
+                        src = (live if st["source"] == "loaded" else saved).get(st.get("from", name))
                         if src is None:
                             obj = c01_impl.build_via(cj, "build")
                             out["source_missing"] = True
@@ -191,6 +205,7 @@ def run(inp):
                     _call_save(io, obj, p_arg, aoef_impl.adir(st.get("save_dir"), st.get("dir_as", "str")), st)
                     out["ok"] = True
                     pinned[name] = (g0, d0, st.get("save_dir"), ty)
+                    saved[name] = obj
                 except leanio.InfraError:
                     raise
                 except Exception as e:  # noqa: BLE001
@@ -348,7 +363,7 @@ def _variants(rng, steps):
     """sprinkle the other spellings of the calls over a history"""
     for st in steps:
         if st["cmd"] == "save":
-            if "via" not in st and st.get("source") != "loaded":
+            if "via" not in st and st.get("source") not in ("loaded", "saved"):
                 st["via"] = rng.choice(VIAS)
             st["call"] = rng.choice(["kw", "kw", "pos"])
             st["path_as"] = rng.choice(["str", "path"])
@@ -391,6 +406,29 @@ def _nested_edit(rng, cj):
             "how": rng.choice(["inplace", "assign"])}
 
 
+def _bump_edit(rng, cj):
+    """an assignment to a scalar field of a nested object (a recording's duration, a clip's end, a note's text)"""
+    cands = []
+
+    def walk(x, key=None):
+        if isinstance(x, dict):
+            kind = c01_cases.kind_of(x, key)
+            if "uuid" in x:
+                for kd, f in (("Recording", "duration"), ("Clip", "end_time"), ("Note", "message")):
+                    if kind == kd and isinstance(x.get(f), str):
+                        cands.append((kd, x["uuid"], f))
+            for k, v in x.items():
+                walk(v, k)
+        elif isinstance(x, list):
+            for v in x:
+                walk(v, key)
+    walk(cj["value"], "~collection")
+    if not cands:
+        return None
+    kind, u, f = rng.choice(cands)
+    return {"op": "bump", "kind": kind, "uuid": u, "field": f}
+
+
 def histories(rng, n, types=None):
     """n histories of every kind; `put` steps that need a document carry "doc_of": collection (filled in by the
     property module from the model's `save`)"""
@@ -405,6 +443,10 @@ def histories(rng, n, types=None):
         A = rng.choice(NAMES)
         B = rng.choice([x for x in NAMES if x != A])
         big = _sized(rng, ty, 2.5, base)
+        for _ in range(20):
+            if len(big["value"][MEMBER_KEY[ty]]) >= 2:
+                break
+            big = _sized(rng, ty, 2.5, base)
         small = _sized(rng, ty, 0.3, base)
         small["value"][MEMBER_KEY[ty]] = small["value"][MEMBER_KEY[ty]][:1]
         steps = []
@@ -417,7 +459,8 @@ def histories(rng, n, types=None):
             steps = [_save(A, big, d), _load(A, d)]
             cur = big
             for _ in range(rng.randint(1, 3)):
-                ed = _nested_edit(rng, cur) if rng.random() < 0.4 else None
+                z = rng.random()
+                ed = _nested_edit(rng, cur) if z < 0.35 else (_bump_edit(rng, cur) if z < 0.6 else None)
                 if ed is None:
                     ed = {"op": "drop_member", "index": rng.choice([0, -1, 1]), "how": rng.choice(["copy", "inplace"])}
                 cur = edit_json(cur, ed)
@@ -463,8 +506,32 @@ def histories(rng, n, types=None):
             rev = aoefgen.revise(big)
             steps = [_save(A, big, d), _load(A, d), _save(A, rev, d), _load(A, d), _load(A, d, fresh=True), _save(A, big, d),
                      _save(A, big, d), _load(A, d), _save(B, rev, d), _load(A, d), _load(B, d)]
+        elif kind == "edit-saved":
+            # an object that was saved is changed (a member removed, a list shortened, a field assigned) and saved again
+            steps = [_save(A, big, d), _load(A, d)]
+            cur = big
+            for j in range(rng.randint(2, 4)):
+                z = rng.random()
+                ed = _bump_edit(rng, cur) if z < 0.4 else (_nested_edit(rng, cur) if z < 0.7 else None)
+                if ed is None:
+                    ed = {"op": "drop_member", "index": rng.choice([0, -1, 1]), "how": rng.choice(["copy", "inplace"])}
+                cur = edit_json(cur, ed)
+                to = A if j % 2 == 0 else B
+                steps += [_save(to, cur, d, source="saved", edit=ed, **{"from": A if j == 0 else (B if j % 2 == 0 else A)}),
+                          _load(to, d, fresh=rng.random() < 0.4)]
+            steps += [_load(A, d), _load(B, d)]
+        elif kind == "same-length":
+            # documents of exactly the same length on one path: two members swapped, one hex digit of the uuid changed
+            v = big["value"]
+            k = MEMBER_KEY[ty]
+            swapped = {"type": ty, "value": dict(v, **{k: v[k][1:] + v[k][:1]})}
+            u = v["uuid"]
+            other = {"type": ty, "value": dict(v, uuid=u[:-1] + ("a" if u[-1] != "a" else "b"))}
+            steps = [_save(A, big, d), _load(A, d), _save(A, swapped, d), _load(A, d), _save(A, other, d), _load(A, d),
+                     _save(A, big, d), _load(A, d, fresh=True)]
         out.append({"steps": _variants(rng, steps), "_kind": kind})
     return out
 
 
-KINDS = ["shrink", "grow", "edit-back", "alternate", "dirs", "pre-existing", "interleaved", "failed-save", "poison", "revise"]
+KINDS = ["shrink", "grow", "edit-back", "alternate", "dirs", "pre-existing", "interleaved", "failed-save", "poison", "revise",
+         "same-length", "edit-saved"]
